@@ -187,6 +187,7 @@ class World:
             eligible = False
         if eligible:
             self.ncalls[a] = k + 1
+            ev["k"] = k            # index a Fault(actor, k, ...) refers to
         flt = self.fault
         try:
             if flt is not None and eligible:
